@@ -22,3 +22,8 @@ impl<DB: DatabaseRef> Scheduler<DB> {
     /// issued fact of replay_uncommitted_suffix: a sequential replay from this committed boundary was run (its result is returned)
     pub uninterp spec fn replayed_from(&self, c: CommittedPrefixEnd, r: Result<(), GrevmError<DB::Error>>) -> bool;
 }
+
+/// TRUSTED stand-in for executor::build_evm (real code under contract in U21): the replay EVM over the locked state
+pub struct ReplayEvm { pub p: u8 }
+#[verifier::external_body] pub fn build_evm<S, B, C, D>(state: &mut S, cfg: B, env: C, pre: D, forbid: bool) -> (e: ReplayEvm) { unimplemented!() }
+pub assume_specification<T: ?Sized, A: core::alloc::Allocator>[ <Arc<T, A> as AsRef<T>>::as_ref ](a: &Arc<T, A>) -> (r: &T);
